@@ -6,6 +6,20 @@
 #define ZSTD_VERIF_LOOP(...)  __VA_ARGS__
 #define ZSTD_VERIF_GHOST(...) __VA_ARGS__
 
+/* ---- generic ghost state (verification-only): written by hooks and by the stubs in /verif/stubs ----
+ * One object, so that any loop contract can name it in its frame (ZSTD_VERIF_GHOST_FRAME). */
+#include <stddef.h>
+struct zstd_verif_ghost_s {
+    unsigned bits_high;          /* highest value DStream.bitsConsumed reached since the harness reset it */
+    void*    memmove_last_dst;   /* last memmove seen by stubs/mem_sampled.c */
+    size_t   memmove_last_len;
+    unsigned memmove_calls;
+};
+extern struct zstd_verif_ghost_s zstd_verif_ghost;
+#define ZSTD_VERIF_GHOST_FRAME __CPROVER_object_whole(&zstd_verif_ghost)
+#define ZSTD_VERIF_BITS_CONSUMED(n) \
+    do { if ((n) > zstd_verif_ghost.bits_high) zstd_verif_ghost.bits_high = (n); } while (0)
+
 /* ---- thread pool (lib/common/pool.c): monitor-invariant proof, see units/c12_pool_monitor.c ----
  * The contract text lives here; pool.c only names it at the loop it belongs to. */
 struct zstd_verif_monitor_s {
